@@ -570,6 +570,7 @@ class Prop(Check):
         "Reg.C26_cache_hit_file",
         "Reg.C26_mm_for_file",
         "Reg.C26_mm_for_file_history",
+        "Reg.C26_cache_fresh_file",
         "Reg.C26_mms_for_file",
         "Reg.C26_cache_fresh",
         "Reg.C26_cache_instance",
